@@ -159,6 +159,12 @@ def routes_agree(which):
         # shifts in output units: none, both axes, one axis only
         sx_, sy_ = float(rng.uniform(-3, 3)) * odx, float(rng.uniform(-3, 3)) * odx
         shift = [(0, 0), (sx_, sy_), (sx_, 0), (0, sy_)][int(rng.integers(0, 4))]
+        if rng.random() < 0.25:
+            # critically sampled or very nearly so, output grid the size of the input: where a "this is just an FFT" shortcut would sit
+            M, N = m, n
+            odx = wvl * efl / (n * dx) / float(rng.choice([1.0, 1.0008, 0.9993, 1.02]))
+            if rng.random() < 0.6:
+                shift = (0, 0)
         a = pr.focus_fixed_sampling(f, dx, efl, wvl, odx, (M, N), shift=shift, method='mdft')
         b = pr.focus_fixed_sampling(f, dx, efl, wvl, odx, (M, N), shift=shift, method='czt')
         check('focus-methods-modulus', bool(np.allclose(abs(a), abs(b), atol=1e-8)))
